@@ -582,7 +582,10 @@ class Framer(tasking.Tasker):
             ScheduleNames[self.schedule],
             self.name))
 
-        exits = self.actives[:]  #make copy of self.actives so can reverse it
+        # use the full outline of the active frame not .actives since .actives
+        # is truncated while a conditional aux suspends the lower frames
+        # and those frames were entered so must be exited as well
+        exits = self.active.outline[:] if self.active else []
         self.exit(exits) #exits is reversed in place in exit()
         self.deactivate()
         if not abort:
